@@ -138,3 +138,12 @@ Theorem C20_chunkwise_unweighted_mean_refuted :
     ~ mv_eq (chunk_mean_unweighted chunks) (nanmean_l (concat chunks)).
 Proof. exact chunk_mean_unweighted_refuted. Qed.
 Print Assumptions C20_chunkwise_unweighted_mean_refuted.
+
+(* Scalar features that are plain numpy arrays (ancillary, temporary, dict and
+   tdms formats): .min()/.max() are numpy's NaN-propagating methods, not the
+   NaN-ignoring summaries (known finding C20-ndarray-summaries-propagate-nan;
+   tied by ndarray_flat). *)
+Theorem C20_ndarray_summaries_refuted :
+  exists l : list fv, npmin_l l <> nanmin_l l /\ npmax_l l <> nanmax_l l.
+Proof. exact ndarray_summaries_refuted. Qed.
+Print Assumptions C20_ndarray_summaries_refuted.
